@@ -135,7 +135,13 @@ def r_iter(ctx):
         for g in F.family(f):
             for b, k, t in paths.ret_assigns(g):
                 s = strip(t)
-                if s[0] == 'call' and s[1].endswith('::is_some'):
+                if s[0] == 'agg' and s[1].endswith('result::Result') and s[2] == 'Ok' and s[3]:
+                    s = strip(s[3][0][1])      # Ok(entry.is_some()) written as an explicit match arm
+                neg = False
+                while s[0] == 'unop' and s[1] == 'Not':
+                    s = strip(s[2])
+                    neg = not neg
+                if s[0] == 'call' and ((s[1].endswith('::is_some') and not neg) or (s[1].endswith('::is_none') and neg)):
                     good = True
         ctx.check(good, rule, path + '/is_some', f.loc(), 'presence = get(..).is_some()', '`%s` does not report get(..).is_some()' % path)
     for path in ('writer::Writer::<D>::is_empty', "reader::Reader::<'t, D>::is_empty"):
